@@ -120,23 +120,32 @@ def flattenChain : Chain → List Dir
   | .elif c body rest => .elif c :: (flattenItems body ++ flattenChain rest)
 end
 
-/-- "well-formed conditions": every `#elif` condition of the tree has a value in every macro table
-    (the code evaluates `#elif` conditions even in groups C never looks at; see
-    `Thm.C11.dead_elif_is_evaluated`) -/
-def Total (cv : Macros → List CTok → Except CondErr Bool) (c : List CTok) : Prop :=
-  ∀ m, ∃ b, cv m c = .ok b
+/-- a condition has a value in every macro table satisfying `Inv` -/
+def TotalOn (Inv : Macros → Prop) (cv : Macros → List CTok → Except CondErr Bool) (c : List CTok) : Prop :=
+  ∀ m, Inv m → ∃ b, cv m c = .ok b
 
+/-- a condition has a value in every macro table -/
+def Total (cv : Macros → List CTok → Except CondErr Bool) (c : List CTok) : Prop :=
+  TotalOn (fun _ => True) cv c
+
+/-! "Well-formed conditions", relative to an invariant `Inv` of the macro table: every `#define/#undef`
+    of the tree preserves `Inv`, and every `#elif` condition of the tree has a value in every macro table
+    satisfying `Inv`.  (The code evaluates `#elif` conditions even in groups C never looks at — see
+    `Thm.C11.dead_elif_is_evaluated` — so *all* `#elif` conditions are constrained, not only the ones C
+    evaluates; `#if` conditions are not constrained at all.) -/
 mutual
-def ItemElifTotal (cv : Macros → List CTok → Except CondErr Bool) : Item → Prop
+def ItemWF (Inv : Macros → Prop) (cv : Macros → List CTok → Except CondErr Bool) : Item → Prop
+  | .plain (.define n b) => ∀ m, Inv m → Inv (Macros.define m n b)
+  | .plain (.undef n) => ∀ m, Inv m → Inv (Macros.undef m n)
   | .plain _ => True
-  | .cond _ body rest => ItemsElifTotal cv body ∧ ChainElifTotal cv rest
-def ItemsElifTotal (cv : Macros → List CTok → Except CondErr Bool) : Items → Prop
+  | .cond _ body rest => ItemsWF Inv cv body ∧ ChainWF Inv cv rest
+def ItemsWF (Inv : Macros → Prop) (cv : Macros → List CTok → Except CondErr Bool) : Items → Prop
   | .nil => True
-  | .cons i is => ItemElifTotal cv i ∧ ItemsElifTotal cv is
-def ChainElifTotal (cv : Macros → List CTok → Except CondErr Bool) : Chain → Prop
+  | .cons i is => ItemWF Inv cv i ∧ ItemsWF Inv cv is
+def ChainWF (Inv : Macros → Prop) (cv : Macros → List CTok → Except CondErr Bool) : Chain → Prop
   | .endif => True
-  | .els body => ItemsElifTotal cv body
-  | .elif c body rest => Total cv c ∧ ItemsElifTotal cv body ∧ ChainElifTotal cv rest
+  | .els body => ItemsWF Inv cv body
+  | .elif c body rest => TotalOn Inv cv c ∧ ItemsWF Inv cv body ∧ ChainWF Inv cv rest
 end
 
 /-- rejection reasons of the reference as `PreprocessError` variants -/
@@ -157,6 +166,33 @@ def taken : CS → Bool
   | _ => true
 
 /-! ### the macro table and text expansion of the model are the reference ones -/
+
+theorem lookup_filter (m : Env) (n x : String) :
+    Env.lookup (m.filter (fun e => e.1 != n)) x = if x = n then none else Env.lookup m x := by
+  induction m with
+  | nil => simp [Env.lookup]
+  | cons e r ih =>
+    by_cases hen : e.1 = n
+    · simp only [List.filter_cons, hen, bne_self_eq_false, Bool.false_eq_true, if_false, ih, Env.lookup]
+      by_cases hx : x = n
+      · simp [hx]
+      · have : (n == x) = false := by simp [Ne.symm hx]
+        simp [hx, this]
+    · have : (e.1 != n) = true := by simp [hen]
+      simp only [List.filter_cons, this, if_true, Env.lookup, ih]
+      by_cases hx : x = n
+      · simp [hx, hen]
+      · simp [hx]
+
+theorem lookup_append_single (m : Env) (n x : String) (b : List CTok) :
+    Env.lookup (m ++ [(n, b)]) x = match Env.lookup m x with
+      | some body => some body
+      | none => if n = x then some b else none := by
+  induction m with
+  | nil => simp [Env.lookup]
+  | cons e r ih =>
+    simp only [List.cons_append, Env.lookup, ih]
+    by_cases h : (e.1 == x) = true <;> simp [h]
 
 theorem define_eq (m : Macros) (n b) : Macros.define m n b = Env.define m n b := rfl
 theorem undef_eq (m : Macros) (n) : Macros.undef m n = Env.undef m n := rfl
@@ -248,11 +284,82 @@ theorem step_elif (cv) (top : CS) (r : List CS) (m out) (c : List CTok) (b : Boo
   · rw [step_inactive cv _ _ _ ha]; simp [exec, hb]
   · rw [step_active cv _ _ _ ha]; simp [exec, hb]
 
+/-- processing a well-formed tree keeps the macro-table invariant -/
+theorem Plain.apply_inv (Inv : Macros → Prop) (cv) (p : Plain) (h : ItemWF Inv cv (.plain p))
+    (m : Macros) (out : Out) (s' : Env × Out) (hm : Inv m)
+    (hs : (p.apply (m, out) : Except (Reject CondErr) (Env × Out)) = .ok s') : Inv s'.1 := by
+  cases p with
+  | define n b => simp only [Plain.apply, Except.ok.injEq] at hs; subst hs; exact h m hm
+  | undef n => simp only [Plain.apply, Except.ok.injEq] at hs; subst hs; exact h m hm
+  | text t => simp only [Plain.apply, Except.ok.injEq] at hs; subst hs; exact hm
+  | pragma k => cases k <;> simp [Plain.apply] at hs <;> (subst hs; exact hm)
+  | incl f => cases f <;> simp [Plain.apply] at hs; subst hs; exact hm
+  | unknown => simp [Plain.apply] at hs
+
 mutual
-theorem Item.refines (cv) : ∀ (i : Item), ItemElifTotal cv i → ∀ (ch : List CS) (m : Macros) (out : Out)
-    (rest : List Dir),
+theorem Item.sel_inv (Inv : Macros → Prop) (cv) : ∀ (i : Item), ItemWF Inv cv i → ∀ (act : Bool) (m : Macros)
+    (out : Out) (s' : Env × Out), Inv m → i.sel cv act (m, out) = .ok s' → Inv s'.1
+  | .plain p, h, act, m, out, s', hm, hs => by
+    cases act
+    · simp only [Item.sel, Bool.false_eq_true, if_false, Except.ok.injEq] at hs; subst hs; exact hm
+    · simp only [Item.sel, if_true] at hs
+      exact Plain.apply_inv Inv cv p h m out s' hm hs
+  | .cond h body chain, ⟨hb, hc⟩, act, m, out, s', hm, hs => by
+    cases act
+    · simp only [Item.sel, Bool.false_eq_true, if_false, Except.ok.injEq] at hs; subst hs; exact hm
+    · simp only [Item.sel, if_true] at hs
+      cases hv : (h.value cv m : Except (Reject CondErr) Bool) with
+      | error e => simp [hv] at hs
+      | ok b =>
+        simp only [hv] at hs
+        cases hs1 : body.sel cv b (m, out) with
+        | error e => simp [hs1] at hs
+        | ok s1 =>
+          simp only [hs1] at hs
+          have h1 := Items.sel_inv Inv cv body hb b m out s1 hm hs1
+          exact Chain.sel_inv Inv cv chain hc true b s1.1 s1.2 s' h1 hs
+theorem Items.sel_inv (Inv : Macros → Prop) (cv) : ∀ (is : Items), ItemsWF Inv cv is → ∀ (act : Bool)
+    (m : Macros) (out : Out) (s' : Env × Out), Inv m → is.sel cv act (m, out) = .ok s' → Inv s'.1
+  | .nil, _, act, m, out, s', hm, hs => by
+    simp only [Items.sel, Except.ok.injEq] at hs; subst hs; exact hm
+  | .cons i is, ⟨hi, his⟩, act, m, out, s', hm, hs => by
+    simp only [Items.sel] at hs
+    cases hs1 : i.sel cv act (m, out) with
+    | error e => simp [hs1] at hs
+    | ok s1 =>
+      simp only [hs1] at hs
+      have h1 := Item.sel_inv Inv cv i hi act m out s1 hm hs1
+      exact Items.sel_inv Inv cv is his act s1.1 s1.2 s' h1 hs
+theorem Chain.sel_inv (Inv : Macros → Prop) (cv) : ∀ (c : Chain), ChainWF Inv cv c → ∀ (act taken : Bool)
+    (m : Macros) (out : Out) (s' : Env × Out), Inv m → c.sel cv act taken (m, out) = .ok s' → Inv s'.1
+  | .endif, _, act, tk, m, out, s', hm, hs => by
+    simp only [Chain.sel, Except.ok.injEq] at hs; subst hs; exact hm
+  | .els body, hb, act, tk, m, out, s', hm, hs => by
+    simp only [Chain.sel] at hs
+    exact Items.sel_inv Inv cv body hb _ m out s' hm hs
+  | .elif c body chain, ⟨hc, hb, hch⟩, act, tk, m, out, s', hm, hs => by
+    simp only [Chain.sel] at hs
+    by_cases hat : (act && !tk) = true
+    · simp only [hat, if_true] at hs
+      cases hcv : cv m c with
+      | error e => simp [hcv] at hs
+      | ok b =>
+        simp only [hcv] at hs
+        cases hs1 : body.sel cv b (m, out) with
+        | error e => simp [hs1] at hs
+        | ok s1 =>
+          simp only [hs1] at hs
+          have h1 := Items.sel_inv Inv cv body hb b m out s1 hm hs1
+          exact Chain.sel_inv Inv cv chain hch act b s1.1 s1.2 s' h1 hs
+    · simp only [hat] at hs
+      exact Chain.sel_inv Inv cv chain hch act tk m out s' hm hs
+end
+
+mutual
+theorem Item.refines (Inv : Macros → Prop) (cv) : ∀ (i : Item), ItemWF Inv cv i → ∀ (ch : List CS)
+    (m : Macros) (out : Out) (rest : List Dir), Inv m →
     run cv ⟨ch, m, out⟩ (flattenItem i ++ rest) = andThen cv ch rest (i.sel cv (active ch) (m, out))
-  | .plain p, _, ch, m, out, rest => by
+  | .plain p, _, ch, m, out, rest, _ => by
     simp only [flattenItem, List.cons_append, List.nil_append, run]
     cases ha : active ch
     · have : step cv ⟨ch, m, out⟩ (plainDir p) = .ok ⟨ch, m, out⟩ := by
@@ -264,16 +371,16 @@ theorem Item.refines (cv) : ∀ (i : Item), ItemElifTotal cv i → ∀ (ch : Lis
     · rw [step_active cv _ _ _ ha, exec_plain_active]
       simp only [Item.sel, if_true]
       cases (p.apply (m, out) : Except (Reject CondErr) (Env × Out)) <;> simp [andThen]
-  | .cond h body chain, ⟨hb, hc⟩, ch, m, out, rest => by
+  | .cond h body chain, ⟨hb, hc⟩, ch, m, out, rest, hm => by
     simp only [flattenItem, List.cons_append, run, List.append_assoc]
     cases ha : active ch
     · rw [step_head_inactive cv ch m out h ha]
       simp only []
-      rw [Items.refines cv body hb]
+      rw [Items.refines Inv cv body hb _ _ _ _ hm]
       have h1 : active (CS.DisabledInner :: ch) = false := by simp [active_cons]
       rw [h1, Items.sel_false]
       simp only [andThen]
-      rw [Chain.refines cv chain hc, ha, Chain.sel_false]
+      rw [Chain.refines Inv cv chain hc _ _ _ _ _ hm, ha, Chain.sel_false]
       simp [Item.sel, andThen]
     · rw [step_head_active cv ch m out h ha]
       simp only [Item.sel, if_true]
@@ -281,35 +388,38 @@ theorem Item.refines (cv) : ∀ (i : Item), ItemElifTotal cv i → ∀ (ch : Lis
       | error e => simp [andThen]
       | ok b =>
         simp only []
-        rw [Items.refines cv body hb]
+        rw [Items.refines Inv cv body hb _ _ _ _ hm]
         have h1 : active (pushState b :: ch) = b := by cases b <;> simp [active_cons, ha]
         rw [h1]
         cases hs : body.sel cv b (m, out) with
         | error e => simp [andThen]
         | ok s' =>
+          have hm' := Items.sel_inv Inv cv body hb b m out s' hm hs
           simp only [andThen]
-          rw [Chain.refines cv chain hc, ha]
+          rw [Chain.refines Inv cv chain hc _ _ _ _ _ hm', ha]
           cases b <;> simp [taken, andThen]
-theorem Items.refines (cv) : ∀ (is : Items), ItemsElifTotal cv is → ∀ (ch : List CS) (m : Macros) (out : Out)
-    (rest : List Dir),
+theorem Items.refines (Inv : Macros → Prop) (cv) : ∀ (is : Items), ItemsWF Inv cv is → ∀ (ch : List CS)
+    (m : Macros) (out : Out) (rest : List Dir), Inv m →
     run cv ⟨ch, m, out⟩ (flattenItems is ++ rest) = andThen cv ch rest (is.sel cv (active ch) (m, out))
-  | .nil, _, ch, m, out, rest => by simp [flattenItems, Items.sel, andThen]
-  | .cons i is, ⟨hi, his⟩, ch, m, out, rest => by
+  | .nil, _, ch, m, out, rest, _ => by simp [flattenItems, Items.sel, andThen]
+  | .cons i is, ⟨hi, his⟩, ch, m, out, rest, hm => by
     simp only [flattenItems, List.append_assoc]
-    rw [Item.refines cv i hi]
+    rw [Item.refines Inv cv i hi _ _ _ _ hm]
     simp only [Items.sel]
-    cases i.sel cv (active ch) (m, out) with
+    cases hs : i.sel cv (active ch) (m, out) with
     | error e => simp [andThen]
-    | ok s' => simp only [andThen]; rw [Items.refines cv is his]; simp [andThen]
-theorem Chain.refines (cv) : ∀ (c : Chain), ChainElifTotal cv c → ∀ (top : CS) (r : List CS) (m : Macros)
-    (out : Out) (rest : List Dir),
+    | ok s' =>
+      have hm' := Item.sel_inv Inv cv i hi _ m out s' hm hs
+      simp only [andThen]; rw [Items.refines Inv cv is his _ _ _ _ hm']; simp [andThen]
+theorem Chain.refines (Inv : Macros → Prop) (cv) : ∀ (c : Chain), ChainWF Inv cv c → ∀ (top : CS)
+    (r : List CS) (m : Macros) (out : Out) (rest : List Dir), Inv m →
     run cv ⟨top :: r, m, out⟩ (flattenChain c ++ rest) =
       andThen cv r rest (c.sel cv (active r) (taken top) (m, out))
-  | .endif, _, top, r, m, out, rest => by
+  | .endif, _, top, r, m, out, rest, _ => by
     simp [flattenChain, run, step_endif, Chain.sel, andThen]
-  | .els body, hb, top, r, m, out, rest => by
+  | .els body, hb, top, r, m, out, rest, hm => by
     simp only [flattenChain, List.cons_append, run, step_els, List.append_assoc]
-    rw [Items.refines cv body hb]
+    rw [Items.refines Inv cv body hb _ _ _ _ hm]
     have h1 : active (top.switch true :: r) = (active r && !taken top) := by
       cases top <;> simp [active_cons, taken]
     rw [h1]
@@ -317,33 +427,34 @@ theorem Chain.refines (cv) : ∀ (c : Chain), ChainElifTotal cv c → ∀ (top :
     cases body.sel cv (active r && !taken top) (m, out) with
     | error e => simp [andThen]
     | ok s' => simp [andThen, run, step_endif]
-  | .elif c body chain, ⟨hc, hb, hch⟩, top, r, m, out, rest => by
-    obtain ⟨b, hcv⟩ := hc m
+  | .elif c body chain, ⟨hc, hb, hch⟩, top, r, m, out, rest, hm => by
+    obtain ⟨b, hcv⟩ := hc m hm
     simp only [flattenChain, List.cons_append, run, step_elif cv top r m out c b hcv, List.append_assoc]
-    rw [Items.refines cv body hb]
+    rw [Items.refines Inv cv body hb _ _ _ _ hm]
     simp only [Chain.sel]
     cases top with
     | DisabledInner =>
       cases har : active r
       · simp only [active_cons, har, Bool.and_false, Items.sel_false, andThen]
-        rw [Chain.refines cv chain hch, har]
+        rw [Chain.refines Inv cv chain hch _ _ _ _ _ hm, har]
         simp [Chain.sel_false, andThen]
       · have h1 : active (CS.switch .DisabledInner b :: r) = b := by cases b <;> simp [active_cons, har]
         rw [h1]
         simp only [taken, Bool.not_false, Bool.and_self, if_true, hcv]
-        cases body.sel cv b (m, out) with
+        cases hs : body.sel cv b (m, out) with
         | error e => simp [andThen]
         | ok s' =>
+          have hm' := Items.sel_inv Inv cv body hb b m out s' hm hs
           simp only [andThen]
-          rw [Chain.refines cv chain hch, har]
+          rw [Chain.refines Inv cv chain hch _ _ _ _ _ hm', har]
           cases b <;> simp [taken, andThen]
     | Enabled =>
       simp only [switch_en, active_cons, do_beq_en, Bool.false_and, Items.sel_false, andThen]
-      rw [Chain.refines cv chain hch]
+      rw [Chain.refines Inv cv chain hch _ _ _ _ _ hm]
       simp [taken, andThen]
     | DisabledOuter =>
       simp only [switch_do, active_cons, do_beq_en, Bool.false_and, Items.sel_false, andThen]
-      rw [Chain.refines cv chain hch]
+      rw [Chain.refines Inv cv chain hch _ _ _ _ _ hm]
       simp [taken, andThen]
 end
 
@@ -378,15 +489,15 @@ theorem step_len (cv) (d : Dir) (hc : CleanDir cv d) (ch : List CS) (m : Macros)
   cases ha : active ch
   · rw [step_inactive cv _ _ _ ha]
     cases d with
-    | elif c => obtain ⟨b, hb⟩ := hc m; cases ch <;> simp [shape, exec, hb]
+    | elif c => obtain ⟨b, hb⟩ := hc m trivial; cases ch <;> simp [shape, exec, hb]
     | els => cases ch <;> simp [shape, exec]
     | endif => cases ch <;> simp [shape, exec]
     | pragma k => cases k <;> simp [shape]
     | _ => simp [shape]
   · rw [step_active cv _ _ _ ha]
     cases d with
-    | ifc c => obtain ⟨b, hb⟩ := hc m; simp [shape, exec, hb]
-    | elif c => obtain ⟨b, hb⟩ := hc m; cases ch <;> simp [shape, exec, hb]
+    | ifc c => obtain ⟨b, hb⟩ := hc m trivial; simp [shape, exec, hb]
+    | elif c => obtain ⟨b, hb⟩ := hc m trivial; cases ch <;> simp [shape, exec, hb]
     | els => cases ch <;> simp [shape, exec]
     | endif => cases ch <;> simp [shape, exec]
     | pragma k => cases k <;> simp_all [shape, exec, CleanDir]
